@@ -762,6 +762,18 @@ def multi_catalogue():
                                 [seg(v(2), f, lib=ok_lib), seg(v(1), f, lib=gone)]))
                 cases.append(mk("multi:gone:%s>%s>%s:%s" % (ok_lib, ok_lib, gone, f), "multi/present_then_missing_library",
                                 [seg(v(1), f, lib=ok_lib), seg(v(1), f, lib=ok_lib), seg(v(1), f, lib=gone)]))
+    # a library named by its bare file name, found through the loader's search path; alone, after and before a
+    # library named by path; and a bare name that is nowhere on the path
+    for f in ("echo_first", "const_str", "no_value", "only_in_b"):
+        cases.append(mk("multi:search_path:bare:%s" % f, "multi/search_path", [seg(v(2), f, lib="search/bare")]))
+        cases.append(mk("multi:search_path:path>bare:%s" % f, "multi/search_path",
+                        [seg(v(1), "const_int", lib="a/plugin"), seg(v(1), f, lib="search/bare"), seg(v(1), "const_int", lib="b/plugin")]))
+    cases.append(mk("multi:search_path:bare_raise", "multi/search_path",
+                    [seg(v(1), "const_int", lib="search/bare"), seg(v(1), "raise", lib="search/bare")]))
+    cases.append(mk("multi:search_path:bare_symbol_gone", "multi/search_path",
+                    [seg(v(1), "only_in_a", lib="a/plugin"), seg(v(1), "only_in_a", lib="search/bare")]))
+    cases.append(mk("multi:search_path:bare_missing", "multi/search_path",
+                    [seg(v(1), "const_int", lib="search/bare"), seg(v(1), "const_int", lib="search/bare_missing")]))
     cases.append(mk("multi:gone:same/one>same/missing", "multi/present_then_missing_library",
                     [seg(v(1), "const_int", lib="same/one"), seg(v(1), "const_int", lib="same/missing")]))
     # existing symbol, then the same symbol name missing in another library
@@ -777,8 +789,8 @@ def multi_catalogue():
 
 def random_multi(ctx, n):
     rng = ctx.rng("multi")
-    live = ["probe", "a/plugin", "b/plugin", "c/plugin", "deep/a/plugin", "same/one", "same/two", "same/three"]
-    gone = ["nodir/plugin", "empty/plugin", "same/missing", "missing"]
+    live = ["probe", "a/plugin", "b/plugin", "c/plugin", "deep/a/plugin", "same/one", "same/two", "same/three", "search/bare"]
+    gone = ["nodir/plugin", "empty/plugin", "same/missing", "missing", "search/bare_missing"]
     cases = []
     for i in range(n):
         fpool = rng.sample(FUNCS, 2)
@@ -808,7 +820,8 @@ def run_case(item):
         with open(os.path.join(d, "not_a_library.so"), "w") as f:
             f.write("this is not an ELF object\n")
         trace_p, probe_p = os.path.join(d, "_trace.log"), os.path.join(d, "_probe.log")
-        env = {"MSCRIPT_VERIF_TRACE": trace_p, "MSCRIPT_FFI_PROBE_LOG": probe_p, "MSCRIPT_VERIF_TYPED_PRINT": "1"}
+        env = {"MSCRIPT_VERIF_TRACE": trace_p, "MSCRIPT_FFI_PROBE_LOG": probe_p, "MSCRIPT_VERIF_TYPED_PRINT": "1",
+               "LD_LIBRARY_PATH": ffi.search_dir()}
         argv = core.ms("execute", "x.mmm")
         if "deep" in case:
             argv += ["--stack-size", str(256 << 20)]       # 80 debug-build activations do not fit the default 4 MiB
@@ -1077,7 +1090,7 @@ def run(ctx):
         "kind_vectors_len_le_2_enumerated": 43, "probe_functions": FUNCS,
         "boundary_values_per_kind": {k: len(v) for k, v in VALUES.items()},
         "catalogue_cases": len(cat), "seeded_cases": len(rnd),
-        "multi_library_cases": len(multi), "library_layout": {k: [os.path.relpath(p, core.WORK), v] for k, (p, v) in LAYOUT.items()},
+        "multi_library_cases": len(multi), "library_layout": {k: [os.path.relpath(p, core.WORK) if os.path.isabs(p) else p + " (bare name, LD_LIBRARY_PATH)", v] for k, (p, v) in LAYOUT.items()},
         "calls_at_depth_cases": len(deepc),
         "call_depths(activations+extra scopes)": sorted({"%d+%d" % (c["deep"]["depth"], c["deep"]["extra"]) for c in deepc}),
         "valgrind_runs": vg_runs, "valgrind_runs_by_class": vg_by_class, "valgrind_available": have_vg,
